@@ -275,6 +275,23 @@ func solveOne(vc *VC, o *Obligation, idx int, opts SolveOpts) *Result {
 		r.Status, r.Raw, r.Output = "undecided", "error", err.Error()
 		return r
 	}
+	if o.ExitCover || o.SiteCover {
+		// cheap reachability probes: one solver, short budget; no answer is not an alarm
+		file := filepath.Join(opts.Dir, fmt.Sprintf("o%05d.smt2", idx))
+		if err := os.WriteFile(file, []byte(vc.Script(o, false)), 0o644); err == nil {
+			raw, out, dt := runSolver(Solvers[0], 2, file)
+			r.Raw, r.Solver, r.Output, r.TimeS, r.Script = raw, Solvers[0].Name, out, dt, file
+			switch raw {
+			case "sat":
+				r.Status = "cover-ok"
+			case "unsat":
+				r.Status = "cover-failed"
+			default:
+				r.Status = "cover-unknown"
+			}
+			return r
+		}
+	}
 	if o.MustFail {
 		raw, out, dt := runSolver(Solvers[0], 2, file)
 		r.Raw, r.Solver, r.Output, r.TimeS = raw, Solvers[0].Name, out, dt
